@@ -154,6 +154,7 @@ impl Monitor for C04 {
         let mut n = 5 + rng.below(36);
         // size thresholds: hundreds of groups, or hundreds of values in one group
         if rng.chance(1, 200) { n = 400 + rng.below(1200); dc.keys = *rng.pick(&[1usize, 2, 40, 300]); }
+        if rng.chance(1, 12) { dc.zeros = true; }
         let lines = std_lines(rng, &t, n, &dc);
         let mut sel = gen_aggregate(rng, &t.schema, &AggCfg::default());
         // DISTINCT over the result table: rows repeat when the keys are not shown
